@@ -1,16 +1,17 @@
 #!/bin/bash
-# tools/try_seed_iso.sh <patch.diff> [check ids...]
+# tools/try_seed_iso.sh <patch.diff|none> [check ids...]
 # Like tools/try_seed.sh, but /repo is not touched: a scratch copy of /repo
 # (with the patch applied) and a scratch copy of /verif are used, so it can
 # run while other checks use /repo.  Prints one line per check.
 set -u
-PATCH=$(readlink -f "$1"); shift
+PATCH=$1; shift
+[ "$PATCH" = none ] || PATCH=$(readlink -f "$PATCH")
 CHECKS=${*:-C01 C02 C03 C04 C05 C06 C07 C08 C09 C10 C11 C12 C13 C14 C15 C16 C17 C18 C19 C20}
 W=$(mktemp -d /dev/shm/verif-seediso.XXXX)
 trap 'rm -rf $W' EXIT
 mkdir -p $W/repo $W/verif
 (cd /repo && git archive HEAD) | tar -x -C $W/repo
-(cd $W/repo && git init -q . && git apply "$PATCH") || { echo "patch does not apply"; exit 2; }
+(cd $W/repo && git init -q . && { [ "$PATCH" = none ] || git apply "$PATCH"; }) || { echo "patch does not apply"; exit 2; }
 (cd /verif && git ls-files -z | grep -zv '^replays/\|^evidence/\|^seeded/' | xargs -0 tar -c) | tar -x -C $W/verif
 mkdir -p $W/verif/evidence
 export VERIF_REPO=$W/repo VERIF_DIR=$W/verif
